@@ -44,9 +44,13 @@ def matmul_forward(a:np.ndarray, b:np.ndarray):
     return a @ b
 
 def matmul_backward(grad:np.ndarray, a:np.ndarray, b:np.ndarray):
+    # a 1-d operand is multiplied as a row (a) / column (b) vector whose extra axis the product drops
+    a_shape, b_shape = a.shape, b.shape
+    if b.ndim == 1: b = b[:, None]; grad = grad[..., None]
+    if a.ndim == 1: a = a[None, :]; grad = grad[..., None, :]
     grad_a = grad @ np.swapaxes(b, -2, -1)
     grad_b = np.swapaxes(a, -2, -1) @ grad
-    return unbroadcast(grad_a, a.shape), unbroadcast(grad_b, b.shape)
+    return unbroadcast(grad_a, a.shape).reshape(a_shape), unbroadcast(grad_b, b.shape).reshape(b_shape)
 
 
 def addmm_forward(a:np.ndarray, b:np.ndarray, c:np.ndarray):
